@@ -41,6 +41,9 @@ pub const HARD_KINDS: [ErrorKind; 8] = [
     ErrorKind::ConnectionReset,
 ];
 pub const HARD_ERRNOS: [i32; 3] = [5 /*EIO*/, 28 /*ENOSPC*/, 11 /*EAGAIN*/];
+/// hard errors whose *payload* is one of the library's own error values (a reader may wrap anything)
+pub const HARD_FOREIGN: usize = 2;
+pub const HARD_TOTAL: usize = HARD_KINDS.len() + HARD_ERRNOS.len() + HARD_FOREIGN;
 
 #[derive(Clone, Debug, Hash, PartialEq, Eq)]
 pub struct Hist {
@@ -193,11 +196,15 @@ impl SimReader<'_> {
                         self.hard_after_mib = true;
                     }
                 }
-                let i = i as usize;
+                let i = i as usize % HARD_TOTAL;
                 if i < HARD_KINDS.len() {
                     Err(io::Error::new(HARD_KINDS[i], Payload(self.hard_seq)))
+                } else if i < HARD_KINDS.len() + HARD_ERRNOS.len() {
+                    Err(io::Error::from_raw_os_error(HARD_ERRNOS[i - HARD_KINDS.len()]))
+                } else if i == HARD_KINDS.len() + HARD_ERRNOS.len() {
+                    Err(io::Error::new(ErrorKind::Other, tlsh::GeneratorError::TooLargeInput))
                 } else {
-                    Err(io::Error::from_raw_os_error(HARD_ERRNOS[(i - HARD_KINDS.len()) % HARD_ERRNOS.len()]))
+                    Err(io::Error::new(ErrorKind::InvalidData, tlsh::GeneratorError::TooSmallInput))
                 }
             }
             Ev::Eof => {
@@ -328,12 +335,12 @@ impl Scenario for C12 {
         }
         if hard {
             let at = r.below(script.len() as u64 + 1) as usize;
-            let kind = r.below((HARD_KINDS.len() + HARD_ERRNOS.len()) as u64) as u8;
+            let kind = r.below(HARD_TOTAL as u64) as u8;
             script.insert(at, Ev::Hard(kind));
             if r.chance(1, 5) {
                 // a second, different hard error later: the *first* one must be reported
                 let at2 = r.range(at as u64 + 1, script.len() as u64) as usize;
-                script.insert(at2, Ev::Hard(((kind as usize + 1) % (HARD_KINDS.len() + HARD_ERRNOS.len())) as u8));
+                script.insert(at2, Ev::Hard(((kind as usize + 1) % HARD_TOTAL) as u8));
             }
         }
         if self.lies {
@@ -466,12 +473,16 @@ impl Scenario for C12 {
                             fnv.write(b"hard");
                             match r {
                                 Err(tlsh::GeneratorOrIOError::IOError(e)) => {
-                                    let i = kind as usize;
+                                    let i = kind as usize % HARD_TOTAL;
                                     let ok = if i < HARD_KINDS.len() {
                                         e.kind() == HARD_KINDS[i]
                                             && e.get_ref().and_then(|x| x.downcast_ref::<Payload>()).map(|p| p.0) == Some(id)
+                                    } else if i < HARD_KINDS.len() + HARD_ERRNOS.len() {
+                                        e.raw_os_error() == Some(HARD_ERRNOS[i - HARD_KINDS.len()])
+                                    } else if i == HARD_KINDS.len() + HARD_ERRNOS.len() {
+                                        e.kind() == ErrorKind::Other && e.get_ref().and_then(|x| x.downcast_ref::<tlsh::GeneratorError>()) == Some(&tlsh::GeneratorError::TooLargeInput)
                                     } else {
-                                        e.raw_os_error() == Some(HARD_ERRNOS[(i - HARD_KINDS.len()) % HARD_ERRNOS.len()])
+                                        e.kind() == ErrorKind::InvalidData && e.get_ref().and_then(|x| x.downcast_ref::<tlsh::GeneratorError>()) == Some(&tlsh::GeneratorError::TooSmallInput)
                                     };
                                     if ok {
                                         None
